@@ -543,6 +543,60 @@ func main() {
 			t.Outcome("ok")
 		})
 
+		// Unmasking as the streaming reader applies it, at every place a payload can surface: the
+		// message bytes returned by Read, the payload handed to the handler of a control frame
+		// between fragments, the payload an OnContinuation handler reads, a top-level control
+		// frame. Every payload comes out exactly as the peer sent it, whatever keys the frames use.
+		r.Part("E5-unmasking-at-every-place-a-payload-surfaces", func(t *explore.T) {
+			p1, p2, p3, p4 := fill(5, 1), fill(7, 2), fill(6, 3), fill(9, 4)
+			for ka, a := range keys[:5] {
+				for kb, b := range keys[:5] {
+					for _, handlerReads := range []string{"all", "3-bytes", "nothing"} {
+						ka, kb, a, b, handlerReads := ka, kb, a, b, handlerReads
+						t.Do(func() string {
+							return fmt.Sprintf("Text-(5) key#%d, Ping(7) key#%d, Cont(6) key#%d, Pong(9) key#%d; continuation handler reads %s", ka, kb, ka, kb, handlerReads)
+						}, func() *explore.Fail {
+							fr := func(op byte, fin bool, key [4]byte, p []byte) []byte {
+								return refmodel.Frame{H: refmodel.Hdr{Fin: fin, Op: op, Masked: true, Mask: key}, Payload: p}.Wire()
+							}
+							data := append(append(append(fr(2, false, a, p1), fr(9, true, b, p2)...), fr(0, true, a, p3)...), fr(10, true, b, p4)...)
+							rd := &wsutil.Reader{Source: env.NewSrc(data), State: ws.StateServerSide}
+							var ctl, cont []byte
+							rd.OnIntermediate = func(_ ws.Header, r io.Reader) error { ctl, _ = io.ReadAll(r); return nil }
+							rd.OnContinuation = func(_ ws.Header, r io.Reader) error {
+								switch handlerReads {
+								case "all":
+									cont, _ = io.ReadAll(r)
+								case "3-bytes":
+									cont = make([]byte, 3)
+									io.ReadFull(r, cont)
+								}
+								return nil
+							}
+							if _, err := rd.NextFrame(); err != nil {
+								return explore.Failf("harness-first-frame", "%v", err)
+							}
+							msg, err := io.ReadAll(rd)
+							if err != nil || !bytes.Equal(append(append([]byte{}, cont...), msg[len(p1):]...), p3) || !bytes.Equal(msg[:len(p1)], p1) {
+								return explore.Failf("message-payload-not-unmasked", "Read gave %x, continuation handler %x; sent %x | %x (err=%v)", msg, cont, p1, p3, err)
+							}
+							if !bytes.Equal(ctl, p2) {
+								return explore.Failf("in-message-control-payload-not-unmasked", "handler got %x, sent %x", ctl, p2)
+							}
+							if _, err := rd.NextFrame(); err != nil {
+								return explore.Failf("top-level-control-frame", "%v", err)
+							}
+							if top, _ := io.ReadAll(rd); !bytes.Equal(top, p4) {
+								return explore.Failf("top-level-control-payload-not-unmasked", "got %x, sent %x", top, p4)
+							}
+							return nil
+						})
+					}
+				}
+			}
+			t.Outcome("ok")
+		})
+
 		r.Part("E4-frame-helpers", func(t *explore.T) {
 			key := keys[1]
 			sizes := []int{}
